@@ -12,7 +12,9 @@ def conds(tier):
     cs = [
         xh.Cond(M, "c08_name_single", t(150, 900), examples=["a='double'", "a='aa'", "a='Point3'", "a='size_t'"],
                 bounds="all argument names of length <= %d" % la),
-        xh.Cond(M, "c08_name_nested", t(240, 1500), examples=["a='vec', b='d'", "a='aXa', b='aa'"], bounds="len(a) <= %d, len(b) <= %d" % ((2, 1) if q else (3, 2))),
+        xh.Cond(M, "c08_name_nested", t(300, 1500), examples=["a='vec', bsel=0", "a='aXa', bsel=1", "a='q', bsel=3"], bounds="symbolic outer name, len(a) <= %d; %d fixed inner names" % ((2, 2) if q else (3, 4))),
+        xh.Cond(M, "c08_all_names", t(200, 600), kind="shape-bounded", examples=["head=0, second=12", "head=4, second=3", "head=11, second=8"],
+                bounds="every argument tree over 4 names x 3 namespaces with up to 2 template arguments of up to 2 leaf arguments each (sub-sampled at depth 2), alone and followed by a second argument"),
         xh.Cond(M, "c08_class_and_members", t(300, 1800), examples=["a='Pose'", "a='pose'", "a='dd'"], bounds="all argument names of length <= %d" % (3 if q else 5)),
     ]
     if os.path.exists(os.path.join(os.path.dirname(__file__), "..", "harness", "c08_product.py")):
